@@ -635,6 +635,23 @@ class Inliner:
                         for a_, b_ in zip(src, tn):
                             ren[a_] = b_
                         direct = True
+        # "for x in g(..)" with g yielding one of its own locals: the local
+        # becomes x itself (unless the consumer rebinds x)
+        if isinstance(loop.target, ast.Name) and not direct:
+            ys = [x.value for st in gbody for x in ast.walk(st)
+                  if isinstance(x, ast.Yield)]
+            if ys and all(isinstance(y, ast.Name) for y in ys) and len(
+                    {y.id for y in ys}) == 1:
+                src1 = ys[0].id
+                tn1 = loop.target.id
+                rebinds = any(isinstance(y, ast.Name) and y.id == tn1
+                              and isinstance(y.ctx, (ast.Store, ast.Del))
+                              for b in loop.body for y in ast.walk(b))
+                if src1 in assigned and src1 not in env and not rebinds \
+                        and tn1 not in (assigned - {src1}) and \
+                        tn1 not in env:
+                    ren[src1] = tn1
+                    direct = True
         full = dict(env)
         full.update(ren)
         pre = []
@@ -835,39 +852,33 @@ class Inliner:
                     elif st.value is not None:
                         out.append(ast.Expr(value=val))
                     return out, True
-                if isinstance(st, ast.If):
-                    b, tb = conv(st.body)
-                    o, to = conv(st.orelse)
-                    if tb and not to:
-                        rest, tr = conv(stmts[i + 1:])
-                        new = ast.If(test=st.test, body=b or [ast.Pass()],
-                                     orelse=o + rest)
-                        out.append(new)
-                        return out, tr
-                    if to and not tb:
-                        rest, tr = conv(stmts[i + 1:])
-                        new = ast.If(test=st.test, body=b + rest,
-                                     orelse=o or [ast.Pass()])
-                        out.append(new)
-                        return out, tr
+                if isinstance(st, ast.If) and any(
+                        isinstance(x, ast.Return) for x in ast.walk(st)):
+                    # some path through this statement returns: the
+                    # statements after it are written into both arms (the
+                    # paths that return never reach them)
+                    rest = stmts[i + 1:]
+                    b, tb = conv(list(st.body) + [clone(r) for r in rest])
+                    o, to = conv(list(st.orelse) + [clone(r) for r in rest])
                     new = ast.If(test=st.test, body=b or [ast.Pass()],
                                  orelse=o)
                     out.append(new)
-                    if tb and to:
-                        return out, True
-                    continue
+                    return out, tb and to
                 if any(isinstance(x, ast.Return) for x in ast.walk(st)):
                     raise _NoInline()
                 out.append(st)
+            # the end of the helper is reached without a return
+            if kind == 'assign':
+                out.append(ast.Assign(targets=[clone(t) for t in target],
+                                      value=ast.Constant(value=None)))
+            elif kind == 'return':
+                out.append(ast.Return(value=None))
             return out, False
 
         try:
             new, term = conv(body)
         except _NoInline:
             return None
-        if not term and kind == 'assign':
-            new.append(ast.Assign(targets=[clone(t) for t in target],
-                                  value=ast.Constant(value=None)))
         res = list(pre)
         for st in new:
             r = sub.visit(st)
@@ -890,6 +901,7 @@ class Inliner:
         self.drop_absorbed()
         self.fold_getattr()
         self.unroll_literal_loops()
+        self.expand_literal_comprehensions()
         self.fold_getattr()
         self.split_tuple_assigns()
         self.propagate_callable_aliases()
@@ -898,13 +910,37 @@ class Inliner:
         self.scalarise_namedtuples()
         self.desugar_globals_dict()
         self.lower_conditional_arguments()
+        self.split_on_flag()
+        self.split_on_conditional_callable()
         self.split_on_conditional_tuple()
         self.lower_table_lookups()
         self.split_tuple_assigns()
         self.fold_constant_fstrings()
         self.forward_result_temps()
+        self.fold_literal_tests()
         ast.fix_missing_locations(self.tree)
         return self.tree
+
+    def fold_literal_tests(self):
+        """``if True:`` / ``if False:`` / ``x if True else y`` left behind by
+        the substitution of a literal argument: the dead arm is dropped."""
+        class F(ast.NodeTransformer):
+
+            def visit_If(self_, n):
+                n = self_.generic_visit(n)
+                t = n.test
+                if isinstance(t, ast.Constant) and isinstance(t.value, bool):
+                    return (n.body if t.value else n.orelse) or ast.Pass()
+                return n
+
+            def visit_IfExp(self_, n):
+                n = self_.generic_visit(n)
+                t = n.test
+                if isinstance(t, ast.Constant) and isinstance(t.value, bool):
+                    return n.body if t.value else n.orelse
+                return n
+
+        F().visit(self.tree)
 
     def forward_result_temps(self):
         """``h__res1 = x`` (a temporary of this normaliser bound to a plain
@@ -1398,6 +1434,216 @@ class Inliner:
                 if changed:
                     break
 
+    def split_on_flag(self):
+        """``flag = E`` followed by at most eight statements that consult
+        ``flag`` only as a whole test (``if flag``, ``x if flag else y``,
+        ``not flag``), at least twice, and never rebind it nor the names E
+        reads: the rest is written out once per truth value (``if E: rest
+        with flag true; else: rest with flag false``) - the same statements
+        in the same order either way, E evaluated once at the same place."""
+        def test_uses(nodes, name):
+            """(uses as a whole test, other uses)"""
+            tests, total = 0, 0
+            for st in nodes:
+                for y in ast.walk(st):
+                    if isinstance(y, ast.Name) and y.id == name:
+                        total += 1
+                    if isinstance(y, (ast.If, ast.IfExp, ast.While)):
+                        t = y.test
+                        if isinstance(t, ast.UnaryOp) and isinstance(
+                                t.op, ast.Not):
+                            t = t.operand
+                        if isinstance(t, ast.Name) and t.id == name:
+                            tests += 1
+            return tests, total - tests
+
+        class S(ast.NodeTransformer):
+
+            def __init__(self_, name, val):
+                self_.name, self_.val = name, val
+
+            def visit_Name(self_, n):
+                if n.id == self_.name and isinstance(n.ctx, ast.Load):
+                    return ast.copy_location(ast.Constant(value=self_.val),
+                                             n)
+                return n
+
+        def stores(nodes):
+            out = set()
+            for st in nodes:
+                for y in ast.walk(st):
+                    if isinstance(y, ast.Name) and isinstance(
+                            y.ctx, (ast.Store, ast.Del)):
+                        out.add(y.id)
+            return out
+
+        changed = True
+        while changed:
+            changed = False
+            for f in [x for x in ast.walk(self.tree)
+                      if isinstance(x, ast.FunctionDef)]:
+                blk = f.body
+                for i, st in enumerate(blk):
+                    if not (isinstance(st, ast.Assign) and len(
+                            st.targets) == 1 and isinstance(
+                                st.targets[0], ast.Name)):
+                        continue
+                    name = st.targets[0].id
+                    rest = blk[i + 1:]
+                    if not rest or len(rest) > 8:
+                        continue
+                    if any(isinstance(y, (ast.FunctionDef, ast.Lambda,
+                                          ast.ClassDef))
+                           for r in rest for y in ast.walk(r)):
+                        continue
+                    nt, no = test_uses(rest, name)
+                    if nt < 2 or no:
+                        continue
+                    free = {y.id for y in ast.walk(st.value)
+                            if isinstance(y, ast.Name)}
+                    if name in stores(rest) or name in free:
+                        continue
+                    # the flag is dead before the assignment
+                    if any(isinstance(y, ast.Name) and y.id == name
+                           for b in blk[:i] for y in ast.walk(b)):
+                        continue
+                    arms = []
+                    for val in (True, False):
+                        a = [S(name, val).visit(clone(r)) for r in rest]
+                        out = []
+                        for x in a:
+                            r = _FoldTests().visit(x)
+                            if r is None:
+                                continue
+                            out.extend(r if isinstance(r, list) else [r])
+                        arms.append(out or [ast.Pass()])
+                    new = ast.If(test=st.value, body=arms[0], orelse=arms[1])
+                    ast.copy_location(new, st)
+                    for a in arms:
+                        for x in a:
+                            ast.fix_missing_locations(x)
+                    blk[i:] = [new]
+                    self.notes.append(
+                        f'{f.name}: the statements after "{name} = ..." '
+                        f'(line {st.lineno}) written out once per truth '
+                        'value of the flag')
+                    changed = True
+                    break
+                if changed:
+                    break
+
+    def split_on_conditional_callable(self):
+        """An if-chain whose every arm binds the same name to a lambda
+        (``if c: f = lambda x: A  else: f = lambda x: B``), followed by at
+        most six statements that only call ``f``: the statements are written
+        into the arms with the calls replaced by the lambda bodies (the
+        arguments must be plain names or constants).  Same statements, same
+        order, on every path."""
+        def arms_of(st, name):
+            """list of (lambda) for the leaf arms, or None"""
+            out = []
+
+            def rec(x):
+                if not isinstance(x, ast.If) or not x.orelse:
+                    return False
+                for blk in (x.body, x.orelse):
+                    if len(blk) == 1 and isinstance(blk[0], ast.If):
+                        if not rec(blk[0]):
+                            return False
+                    elif len(blk) == 1 and isinstance(
+                            blk[0], ast.Assign) and len(
+                                blk[0].targets) == 1 and isinstance(
+                                    blk[0].targets[0], ast.Name) and \
+                            blk[0].targets[0].id == name and isinstance(
+                                blk[0].value, ast.Lambda):
+                        out.append(blk[0])
+                    else:
+                        return False
+                return True
+
+            return out if rec(st) and 2 <= len(out) <= 4 else None
+
+        def first_name(st):
+            x = st
+            while isinstance(x, ast.If):
+                x = x.body[0] if x.body else None
+            if isinstance(x, ast.Assign) and len(
+                    x.targets) == 1 and isinstance(x.targets[0], ast.Name):
+                return x.targets[0].id
+            return None
+
+        changed = True
+        while changed:
+            changed = False
+            for f in [x for x in ast.walk(self.tree)
+                      if isinstance(x, ast.FunctionDef)]:
+                blk = f.body
+                for i, st in enumerate(blk):
+                    if not isinstance(st, ast.If):
+                        continue
+                    name = first_name(st)
+                    if name is None:
+                        continue
+                    arms = arms_of(st, name)
+                    if arms is None:
+                        continue
+                    rest = blk[i + 1:]
+                    if not rest or len(rest) > 6:
+                        continue
+                    uses = [y for r in rest for y in ast.walk(r)
+                            if isinstance(y, ast.Name) and y.id == name]
+                    calls = [y for r in rest for y in ast.walk(r)
+                             if isinstance(y, ast.Call) and isinstance(
+                                 y.func, ast.Name) and y.func.id == name]
+                    if not uses or len(uses) != len(calls) or any(
+                            isinstance(u.ctx, ast.Store) for u in uses):
+                        continue
+                    if any(c.keywords or not all(
+                            isinstance(a, (ast.Name, ast.Constant))
+                            for a in c.args) for c in calls):
+                        continue
+                    # the free names of the lambdas are not rebound in rest
+                    bound = {y.id for r in rest for y in ast.walk(r)
+                             if isinstance(y, ast.Name) and isinstance(
+                                 y.ctx, (ast.Store, ast.Del))}
+                    free = {y.id for a in arms for y in ast.walk(a.value.body)
+                            if isinstance(y, ast.Name)}
+                    if free & bound - {p_.arg for a in arms
+                                       for p_ in a.value.args.args}:
+                        continue
+                    for a in arms:
+                        lam = a.value
+                        new = []
+                        for r in rest:
+                            r2 = _Subst({name: lam}).visit(clone(r))
+                            r2 = _FoldTests().visit(r2)
+                            if r2 is None:
+                                continue
+                            new.extend(r2 if isinstance(r2, list) else [r2])
+                        par = getattr(a, '_arm_parent', None)
+                        a._replacement = new or [ast.Pass()]
+
+                    def put(x):
+                        for fld in ('body', 'orelse'):
+                            b = getattr(x, fld)
+                            if len(b) == 1 and isinstance(b[0], ast.If):
+                                put(b[0])
+                            elif len(b) == 1 and hasattr(b[0],
+                                                         '_replacement'):
+                                setattr(x, fld, b[0]._replacement)
+
+                    put(st)
+                    blk[i + 1:] = []
+                    ast.fix_missing_locations(st)
+                    self.notes.append(
+                        f'{f.name}: the statements after the conditional '
+                        f'binding of the callable "{name}" (line '
+                        f'{st.lineno}) written into its arms')
+                    changed = True
+                    break
+                if changed:
+                    break
+
     def desugar_globals_dict(self):
         """``globals()['NAME']`` (directly or through a local bound once to
         ``globals()``) with a constant identifier is the module-level name
@@ -1857,6 +2103,75 @@ class Inliner:
                         self.notes.append(f'{f.name}: unrolled loop over a '
                                           f'{len(it.elts)}-element literal')
 
+    def expand_literal_comprehensions(self):
+        """``[E for a in (x, y) for b in (u, v)]`` over literal displays of
+        names and constants is the list display it builds (at most 24
+        elements, no conditions): E with the targets substituted, in
+        iteration order.  The substituted values are names and constants, so
+        nothing is evaluated more or less often."""
+        def pure(e):
+            if isinstance(e, (ast.Name, ast.Constant)):
+                return True
+            if isinstance(e, (ast.Tuple, ast.List)):
+                return all(pure(x) for x in e.elts)
+            return False
+
+        def bind(target, val, env):
+            if isinstance(target, ast.Name):
+                env[target.id] = val
+                return True
+            if isinstance(target, (ast.Tuple, ast.List)) and isinstance(
+                    val, (ast.Tuple, ast.List)) and len(target.elts) == len(
+                        val.elts):
+                return all(bind(t, v, env)
+                           for t, v in zip(target.elts, val.elts))
+            return False
+
+        me = self
+
+        class T(ast.NodeTransformer):
+
+            def visit_ListComp(self_, n):
+                n = self_.generic_visit(n)
+                gens = n.generators
+                if not gens or any(g.ifs or g.is_async or not isinstance(
+                        g.iter, (ast.Tuple, ast.List)) or not all(
+                            pure(x) for x in g.iter.elts) for g in gens):
+                    return n
+                tnames = {y.id for g in gens for y in ast.walk(g.target)
+                          if isinstance(y, ast.Name)}
+                # a later iterable must not depend on an earlier target
+                if any(isinstance(y, ast.Name) and y.id in tnames
+                       for g in gens for y in ast.walk(g.iter)):
+                    return n
+                if any(isinstance(y, (ast.Lambda, ast.ListComp,
+                                      ast.GeneratorExp, ast.SetComp,
+                                      ast.DictComp, ast.NamedExpr))
+                       for y in ast.walk(n.elt)):
+                    return n
+                total = 1
+                for g in gens:
+                    total *= len(g.iter.elts)
+                if total == 0 or total > 24:
+                    return n
+                envs = [{}]
+                for g in gens:
+                    nxt = []
+                    for env in envs:
+                        for v in g.iter.elts:
+                            e2 = dict(env)
+                            if not bind(g.target, v, e2):
+                                return n
+                            nxt.append(e2)
+                    envs = nxt
+                elts = [_Subst(env).visit(clone(n.elt)) for env in envs]
+                me.notes.append(f'comprehension over a literal at line '
+                                f'{n.lineno} written out ({total} elements)')
+                return ast.copy_location(ast.List(elts=elts, ctx=ast.Load()),
+                                         n)
+
+        T().visit(self.tree)
+
     def fold_getattr(self):
         """getattr(x, 'name') with a constant identifier is x.name;
         ``for v in iter(X)`` iterates over X."""
@@ -1987,6 +2302,77 @@ class Inliner:
                         and _has_yield(h):
                     rep = self.fuse(h, st, skip)
                     call = st.iter
+            if rep is None and isinstance(st, (ast.Return, ast.Assign)) and \
+                    isinstance(st.value, ast.Call) and isinstance(
+                        st.value.func, ast.Name) and \
+                    st.value.func.id == 'sum' and len(
+                        st.value.args) == 1 and not st.value.keywords and \
+                    isinstance(st.value.args[0], ast.GeneratorExp) and len(
+                        st.value.args[0].generators) == 1 and isinstance(
+                            st.value.args[0].generators[0].iter, ast.Call) \
+                    and (isinstance(st, ast.Return) or (
+                        len(st.targets) == 1 and isinstance(
+                            st.targets[0], ast.Name))):
+                # "return sum(E for x in g(..) if C)" over a new generator
+                # helper: the counting loop it stands for (sum starts at 0
+                # and adds the elements in order)
+                ge = st.value.args[0]
+                g0 = ge.generators[0]
+                h, skip = self.helper_for(g0.iter, cls, closures)
+                if h is not None and h is not owner and self.eligible(h) \
+                        and _has_yield(h) and not g0.is_async:
+                    self.counter += 1
+                    acc = f'sum__acc{self.counter}'
+                    inner = [ast.AugAssign(
+                        target=ast.Name(id=acc, ctx=ast.Store()),
+                        op=ast.Add(), value=ge.elt)]
+                    for c_ in reversed(g0.ifs):
+                        inner = [ast.If(test=c_, body=inner, orelse=[])]
+                    loop = ast.For(target=g0.target, iter=g0.iter,
+                                   body=inner, orelse=[])
+                    init = ast.Assign(
+                        targets=[ast.Name(id=acc, ctx=ast.Store())],
+                        value=ast.Constant(value=0))
+                    if isinstance(st, ast.Return):
+                        last = ast.Return(value=ast.Name(id=acc,
+                                                         ctx=ast.Load()))
+                    else:
+                        last = ast.Assign(targets=st.targets,
+                                          value=ast.Name(id=acc,
+                                                         ctx=ast.Load()))
+                    new3 = [init, loop, last]
+                    for x in new3:
+                        ast.copy_location(x, st)
+                        for y in ast.walk(x):
+                            if not hasattr(y, 'lineno'):
+                                ast.copy_location(y, st)
+                        ast.fix_missing_locations(x)
+                    body[i:i + 1] = new3
+                    self.notes.append(f'{owner.name}: sum() over '
+                                      f'{h.name} written as a loop')
+                    changed = True
+                    continue
+            if rep is None and isinstance(st, ast.For) and isinstance(
+                    st.iter, ast.Call):
+                # "for x in h(..)" with a multi-statement helper that
+                # returns its sequence: the value goes into a temporary
+                # first (evaluated once, at the same point)
+                h, skip = self.helper_for(st.iter, cls, closures)
+                if h is not None and h is not owner and self.eligible(h) \
+                        and not _has_yield(h) and \
+                        _expr_form(h.body) is None:
+                    self.counter += 1
+                    tmp = f'{h.name.lstrip("_")}__res{self.counter}'
+                    a = ast.Assign(targets=[ast.Name(id=tmp,
+                                                     ctx=ast.Store())],
+                                   value=st.iter)
+                    st.iter = ast.Name(id=tmp, ctx=ast.Load())
+                    ast.copy_location(a, st)
+                    ast.copy_location(a.targets[0], st)
+                    ast.copy_location(st.iter, st)
+                    body.insert(i, a)
+                    changed = True
+                    continue
             if rep is not None:
                 for x in rep:
                     ast.copy_location(x, st)
